@@ -13,7 +13,7 @@ AXIOM_ALLOW = {'*': []}
 
 PROPS = {
     'C18': {
-        'streams': ['date', 'datecache', 'dateresp'],
+        'streams': ['date', 'datecache', 'dateresp', 'dateclock'],
         'shrink': {},
         'assumptions': [
             "i64 arithmetic modelled as unbounded Z on the stated range [0, 253402300799]",
